@@ -31,7 +31,8 @@ SHARD_TIMEOUT = {"quick": 280, "thorough": 3000}
 PAR = 8
 BOUND = 25.0
 
-ACTS = ["idle", "blocked", "busy", "sleep", "swallow_kbi", "sigint_ignored", "daemon_threads", "flood", "big_transfer", "endmarker_raises"]
+ACTS = ["idle", "blocked", "busy", "sleep", "swallow_kbi", "sigint_ignored", "daemon_threads", "flood", "big_transfer", "endmarker_raises",
+        "callback_service"]
 GEVENT_ACTS = ["idle", "blocked", "gevent_sleep", "gevent_busy", "gevent_timesleep"]
 REMOVALS = ["sigkill", "sigterm", "os_exit", "normal_exit", "close_connection", "during_bootstrap"]
 TOPOS = ["popen", "python", "via", "socket"]
@@ -233,10 +234,16 @@ def run_inproc(spec):
             sched = imodel.Sched(rng.getrandbits(32), p_yield=0.1, p_sleep=0.02)
             pair = pairs.Pair(rng.choice(("pipe", "tcp")), worker_backend=model, sched=sched)
             gw = pair.gw
+            keep: list = []
             label = f"in-process worker {model}: " + (f"stall at line {ln[1]} hit {k}" if ln else f"line noise run {k}")
             try:
                 for _ in range(rng.choice((0, 1, 2))):
                     gw.remote_exec("channel.send(1)").waitclose(10)
+                if rng.random() < 0.5:
+                    # services left behind by earlier executions: callbacks on channels whose objects are gone
+                    keep.append(gw.remote_exec("c = channel.gateway.newchannel()\nchannel.send(c)\nc.setcallback(lambda item: None)\ndel c\n"
+                                               "c2 = channel.gateway.newchannel()\nchannel.send(c2)\nc2.setcallback(lambda item: None, endmarker=None)\ndel c2").receive(10))
+                    res.count("inproc_runs_with_callback_services")
                 if ln is None:
                     pre.set_noise(rng.getrandbits(32), rng.choice((0.05, 0.2)))
                 else:
@@ -287,6 +294,8 @@ def run_shard(spec):
         cases[0].update(gen_fixed("popen", "thread", "sigint_ignored", "sigkill"))
         cases[1].update(gen_fixed("popen", "main_thread_only", "swallow_kbi", "os_exit"))
         cases[2].update(gen_fixed("popen", "thread", "swallow_kbi", "sigkill", stderr="pipe_reader_gone"))
+        cases[4].update(gen_fixed("popen", "thread", "callback_service", "sigkill"))
+        cases[5].update(gen_fixed("python", "main_thread_only", "callback_service", "close_connection"))
         cases[3].update(gen_fixed("python", "thread", "sigint_ignored", "sigkill", stderr="closed"))
     if spec["shard"] == 2:
         cases[0].update(gen_fixed("popen", "thread", "endmarker_raises", "sigkill"))
